@@ -165,7 +165,15 @@ func c05Run(c *ctx, order []string, extras int, pos int, capital bool, seed uint
 	msg.items = append(msg.items, target)
 	// a second instance of the same definition, to check that instances pick the definition by index
 	second := hObj("Bind", names, wvals)
+	if seed%2 == 0 && len(names) >= 2 {
+		// ... or of ANOTHER definition of the same class: the same fields listed in another order, so
+		// that one stream carries two definitions of one name and the same field count
+		k := 1 + int(seed/2)%(len(names)-1)
+		second = hObj("Bind", append(append([]string{}, names[k:]...), names[:k]...), append(append([]*hval{}, wvals[k:]...), wvals[:k]...))
+	}
 	msg.items = append(msg.items, second)
+	// and an instance of the first definition again, after the other definition was used
+	msg.items = append(msg.items, hObj("Bind", names, wvals))
 	var pre []hclass
 	if seed%3 == 0 { // a definition of a class the type map does not know, ahead of everything (never instantiated)
 		pre = []hclass{{"com.unknown.Ghost", []string{"x", "y"}}}
@@ -199,7 +207,7 @@ func c05Run(c *ctx, order []string, extras int, pos int, capital bool, seed uint
 		return
 	}
 	l, ok := dec.([]interface{})
-	if !ok || len(l) != pos+2 {
+	if !ok || len(l) != pos+3 {
 		c.fail("decoded message has the wrong shape", in, fmt.Sprintf("%T len", dec), "")
 		return
 	}
@@ -210,7 +218,7 @@ func c05Run(c *ctx, order []string, extras int, pos int, capital bool, seed uint
 			return
 		}
 	}
-	for k := 0; k < 2; k++ {
+	for k := 0; k < 3; k++ {
 		got, ok := l[pos+k].(*Bind)
 		if !ok {
 			c.fail("the target instance decoded as the wrong type", in, fmt.Sprintf("%T", l[pos+k]), "")
